@@ -85,6 +85,9 @@ func (it *Iterator) Refresh() {
 		it.iter.Close()
 		it.iter = it.snap.db.store.NewIterator(it.snap.db.iterCmp, it.buf)
 		it.iter.Seek(unsafe.Pointer(itm))
+		// Seek lands on the oldest physical version of the key; move to
+		// the version visible in this snapshot again.
+		it.skipUnwanted()
 	}
 }
 
